@@ -131,7 +131,26 @@ def conc_scenarios(wd, quick, seed):
             add({"pat": "rowgroups", "n": s["n"], "steps": [st for st in s["steps"] if st["op"] != "end"]})
     for s in vf.emit_scenarios(wd, "MC_LazyPublish.tla", "MC_LazyPublish_sim.cfg", minimum=5, simulate=15 if quick else 200, depth=40, seed=seed):
         add({"pat": "publish", "n": s["n"], "arrivals": s["arrivals"], "releases": s["releases"]})
-    for s in vf.emit_scenarios(wd, "Conc.tla", "Conc_sim.cfg", minimum=10, simulate=40 if quick else 500, depth=12, seed=seed):
+    # workloads of Conc.tla: from many simulated ones, first a greedy cover of every pair of tasks of each pattern
+    # (two tasks that disturb each other must meet in some workload), then the rest up to the tier's budget
+    pool = vf.emit_scenarios(wd, "Conc.tla", "Conc_sim.cfg", minimum=10, simulate=600 if quick else 3000, depth=12, seed=seed)
+    by_pat = {}
+    for s in pool:
+        by_pat.setdefault(s["pat"], []).append(s)
+    budget = 40 if quick else 500
+    chosen = []
+    for pat in sorted(by_pat):
+        cand = by_pat[pat]
+        pairs_of = lambda s: {tuple(sorted((a, b))) for i, a in enumerate(s["tasks"]) for b in s["tasks"][i + 1:]}
+        todo = set().union(*[pairs_of(s) for s in cand])
+        while todo:
+            best = max(cand, key=lambda s: len(pairs_of(s) & todo))
+            gain = pairs_of(best) & todo
+            if not gain:
+                break
+            todo -= gain
+            chosen.append(best)
+    for s in chosen + pool[:max(0, budget - len(chosen))]:
         add({"pat": s["pat"], "tasks": s["tasks"]})
     return out
 
